@@ -706,14 +706,14 @@ func TestC11ResyncAfterFailure(t *testing.T) {
 // client's loop), so the reporting loop must keep emitting readings and the
 // client mutex must stay free while the attempt hangs.
 func TestC11StalledServer(t *testing.T) {
-	ev.Rule("C11(stall): the client's own loop launches a sync round against a server that accepts and stays silent for 0.8-2 s; meanwhile 3-6 ticks with new readings are granted; oracle: every tick emits its reading, the mutex is free during the stall, no panic, and after the stall ends the round fails over / finishes")
+	ev.Rule("C11(stall): the client's own loop launches a sync round against a server that accepts and stays silent for 1.5-3 s; meanwhile 4-6 ticks with new readings are granted; oracle: every tick emits its reading, the mutex is free during the stall, no panic, a further round is started (a further connection arrives) while the first one still waits, and after the stall ends the round fails over / finishes")
 	rapid.Check(t, func(t *rapid.T) {
 		w := newC11World(t, true)
 		defer w.cleanup()
 		if len(w.fakes) == 0 {
 			return
 		}
-		stall := time.Duration(rapid.IntRange(800, 2000).Draw(t, "stallMs")) * time.Millisecond
+		stall := time.Duration(rapid.IntRange(1500, 3000).Draw(t, "stallMs")) * time.Millisecond
 		c11Mu.Lock()
 		for _, f := range w.fakes {
 			c11Prep[f] = &c11Prepared{acts: []world.Action{{Kind: "stall", StallFor: stall}}}
@@ -728,8 +728,16 @@ func TestC11StalledServer(t *testing.T) {
 			}
 		}
 		ev.Eval(1)
+		total := func() int {
+			n := 0
+			for _, f := range w.fakes {
+				n += f.Dials()
+			}
+			return n
+		}
+		stallStart := time.Now()
 		w.tickEmits() // launches the loop's sync round (old last-sync file)
-		n := rapid.IntRange(3, 6).Draw(t, "ticksDuringStall")
+		n := rapid.IntRange(4, 6).Draw(t, "ticksDuringStall")
 		for i := 0; i < n; i++ {
 			if !clientLockFree(w.c) {
 				w.fail("the client mutex is held while a sync attempt waits for a silent server")
@@ -740,6 +748,16 @@ func TestC11StalledServer(t *testing.T) {
 			w.fail("client goroutine panicked: %s: %s", ps[0].Where, ps[0].Value)
 		}
 		if eligible > 0 {
+			// "tries to sync again later": the loop starts its next round four ticks
+			// after an unsuccessful one, whether or not that one has returned - a
+			// server that never answers must not be able to end all syncing
+			world.WaitActive(1500*time.Millisecond, 5*time.Millisecond, func() bool { return total() >= 2 || time.Since(stallStart) > stall-200*time.Millisecond })
+			if total() < 2 && time.Since(stallStart) < stall-200*time.Millisecond {
+				w.fail("%d ticks after a sync round began to wait for a silent server, no further round has been started (connections so far: %d)", n, total())
+			}
+			if total() >= 2 {
+				ev.Label("c11:new-round-while-one-hangs")
+			}
 			ev.NonTrivial(fmt.Sprintf("c11|stall|%v|%d|%d", stall, eligible, n))
 			ev.Label("c11:stall-case")
 		}
